@@ -8,14 +8,15 @@ Next == UNCHANGED i
 \* words rows: <<id, lex, pos, lemma, <<forms>>, <<<<sense, synset>>...>>>>
 WordsOf(r) == {[id |-> w[1], lex |-> w[2], pos |-> w[3], lemma |-> w[4], forms |-> w[5],
                 senses |-> w[6]] : w \in Rng(r.words)}
-InScope(r) == {w \in WordsOf(r) : w.lex \in Rng(r.scope)}
 NormOf(r) == [s \in {t[1] : t \in Rng(r.norm)} |->
                 (CHOOSE t \in Rng(r.norm) : t[1] = s)[2]]
 SynPosOf(r) == [s \in {t[1] : t \in Rng(r.synpos)} |->
                 (CHOOSE t \in Rng(r.synpos) : t[1] = s)[2]]
+SynOwnOf(r) == [s \in {t[1] : t \in Rng(r.synpos)} |->
+                (CHOOSE t \in Rng(r.synpos) : t[1] = s)[3]]
 \* call rows: <<kind, form, pos, normOn, saf, lemkind, <<<<pos, <<forms>>>>...>>, st, <<ids>>>>
 LemOf(t) == {<<c[1], Rng(c[2])>> : c \in Rng(t[7])}
-Expected(r, t) == Find(t[1], NormOf(r), InScope(r), SynPosOf(r), t[2], t[3], LemOf(t), t[4], t[5])
+Expected(r, t) == Find(t[1], NormOf(r), WordsOf(r), Rng(r.scope), SynPosOf(r), SynOwnOf(r), t[2], t[3], LemOf(t), t[4], t[5])
 CallOK(r, t) == t[8] = "ok" /\ Rng(t[9]) = Expected(r, t)
 NoDupOK(t) == Len(t[9]) = Cardinality(Rng(t[9]))
 Rows(S, P(_), name) == LET bad == {t \in S : ~P(t)} IN
